@@ -1,12 +1,15 @@
 import LibInj.Proofs.H5Good
 import LibInj.Proofs.H5Term
+import LibInj.Proofs.H5Order
 set_option linter.unusedSimpArgs false
 /-! # C17 — HTML tokens stay inside the input, in order; constructs end at their first terminator
 
 Proved for every input and start context: the tokenizer stops, every token lies inside the input
 (`tokens_inside_input`), the scan offset never moves back and every emitting step makes progress
-(`step_progress`), and there are at most `3|s|+3` tokens (`token_count_partial`; the sharp bound
-`|s|+1` of the property needs an amortised count and is checked by the oracle). First-terminator
+(`step_progress`), **there are at most `|s|+1` tokens and consecutive tokens never overlap**
+(`order_and_count`: every state has a lower bound for the start of its next token and a potential
+`|s| - bound + credit`; each emitting step puts its token between the old and the new bound and lowers
+the potential — `Proofs/H5Order`). First-terminator
 refinements proved here: `<! .. >`, `<? .. >`, `</! .. >` (bogus comment) and doctype end at the
 first `>` and resume right after it (`bogus_comment_first_gt`, `doctype_first_gt`); a quoted
 attribute value ends at the first matching quote (`quoted_value_first_quote`); **`<![CDATA[ .. ]]>`
@@ -14,8 +17,7 @@ ends at the first `]]>`, `<% .. %>` at the first `%>`, `<!-- ..` at the first `-
 (`cdata_first_terminator`, `percent_first_terminator`, `comment_first_terminator`): the token spans
 exactly the bytes from the scan offset to the terminator, the scan resumes right after it, and with no
 terminator the token runs to end of input. So every delimited construct of the property has its
-first-terminator theorem. Not yet theorems: the sharp count `|s|+1` and the non-overlap of
-consecutive tokens (both checked by the oracle). -/
+first-terminator theorem, and the order / count clause is closed: the full statement of C17 holds on the model. -/
 namespace LibInj.Properties.C17
 open LibInj LibInj.H5
 
@@ -80,10 +82,14 @@ theorem quoted_value_first_quote (q : UInt8) (h : H) (h0 : 0 < h.pos) (hp : h.po
   simp only [List.getElem?_drop] at this
   exact this
 
-/-- the order / sharp-count clauses of C17, full statement (checked by the oracle) -/
+/-- the order / sharp-count clauses of C17, full statement -/
 def order_and_count_statement : Prop :=
   ∀ (s : Bytes) (ctx : Nat) (ts : List Tok), tokens s ctx = .ok ts →
     ts.length ≤ s.length + 1 ∧ ∀ i, ∀ h : i + 1 < ts.length, ts[i].off + ts[i].len ≤ ts[i+1].off
+
+/-- **C17, order and count.** -/
+theorem order_and_count : order_and_count_statement :=
+  fun s ctx ts h => tokens_order_count s ctx ts h
 
 example : (match tokens [60,33,97,62,98] 0 with | .ok [t1, t2] => t1.off == 2 && t1.len == 1 && t2.off == 4 | _ => false) = true := by
   decide +kernel
